@@ -18,7 +18,7 @@ def dispatch : String → Option (String → String)
   | "C04" => some Lifetimes.runLine
   | "C05" => some Lower.runLine
   | "C06" => some Rename.runLine
-  | "C07" => some DartKt.runLine
+  | "C07" => some (fun l => if l.startsWith "(c07kt" then KtNative.runLine l else DartKt.runLine l)
   | "C08" => some JsLayout.runLine
   | "C09" => some Idents.runLine
   | "C11" => some EnumGen.runLine
